@@ -5,12 +5,12 @@ import os
 VERIF = os.path.dirname(os.path.dirname(os.path.abspath(__file__)))
 BASE = "cd /repo && /venv/bin/python -m pytest -ra -q -p no:cacheprovider --timeout=900 --continue-on-collection-errors --no-cov"
 
-T = 'Trusted: Lean 4.33 kernel (axioms of every theorem audited ⊆ {propext, Classical.choice, Quot.sound}; no sorry/native_decide); translator; correspondence harness; CPython int semantics as stated in PyPrims.lean. '
+T = 'Trusted: Lean 4.33 kernel (axioms of every theorem audited ⊆ {propext, Classical.choice, Quot.sound}; no sorry/native_decide); the translators (tables and conditions; the statement-level Python-to-Lean compiler for the core loops, the evaluator, the wrapper of dltyped and the class entry points, with its fixed loop skeletons and leaf tables; the provenance lists of the remaining hand-modelled functions); correspondence harness; CPython int semantics as stated in PyPrims.lean. '
 
 def C(technique, text, note, ref, modules):
     return dict(technique=technique, text=text, note=T + note, ref=ref)
 
-CORE = "core loops regenerated from the source by a translator and proved equal to the hand-written model (Properties/Core.lean); "
+CORE = "core loops / evaluator / wrapper regenerated from the source by a statement-level translator and proved equal to the hand-written model (Properties/Core*.lean); "
 CORR = "hand-written executable Lean model tied to the code by a differential correspondence run (same operation lines on the real code and on the compiled model) with an independent oracle"
 CHECKS = {
     "C01": C("Lean 4 proof (invariant by induction over the context queue: monotone bindings => soundness w.r.t. Conforms); " + CORE + CORR,
@@ -25,13 +25,13 @@ CHECKS = {
     "C04": C("Lean 4 proof by kernel evaluation (decide +kernel) over the complete, regenerated class x dtype acceptance table",
              "The acceptance table is re-observed from the real classes on every run for every dtype numpy(+ml_dtypes)/torch/jax can construct and written into Generated/DtypeTables.lean; table_is_documented, membership_is_check and superset_relations are decided by the kernel over the whole table (a finite domain enumerated completely). The bodies of _assert_tensor_shape, assert_context and TensorTypeBase.check are regenerated from the source on every run by a statement-level translator (harness/translate_core.py) and proved equal to the model for all inputs (Properties/Core.lean), so these theorems are re-checked against what the code says now.",
              "Completeness of the dtype enumeration for the installed libraries; bfloat16 outside torch and non-native byte orders are outside the claim.", "DESIGN.md §4 C04", []),
-    "C05": C("Lean 4 proof (shunting-yard compiler correctness; stack machine = tree evaluator) over a model tied to the source by a translator (precedence table, operator sets, operator bodies) + " + CORR,
+    "C05": C("Lean 4 proof (shunting-yard compiler correctness; stack machine = tree evaluator; recogniser decides the grammar, grammar unambiguous) over a model tied to the source by translators (precedence table, operator sets, operator bodies, the evaluate loop compiled and proved equal to the model) + " + CORR,
              "Kernel-checked theorems about the Lean model of the tokenizer/parser/evaluator; precedence table, operator sets and operator bodies are regenerated from _parser.py on every run and proved equal to the model's; exhaustive-small and seeded differential runs with an independent recursive-descent grammar oracle (Spec/Grammar.lean).",
              "Negative exponents (float path) and non-ASCII input are not modelled.", "DESIGN.md §4 C05", []),
     "C06": C("Lean 4 proof (partial: error classes of the parser model; negation of the full statement with kernel-checked witnesses) + exhaustive differential run against an independent grammar recogniser",
              "The full statement (accept => grammatical) is FALSE of the current code (known finding F6, witnesses proved in Lean); the check enumerates every string of <=4 tokens over a 21-symbol alphabet plus mutations, compares code and faithful model, judges acceptance against the Lean recogniser, and USES every accepted string in a call.",
              "F6 is an open known finding: inside its region (model accepts a string outside the grammar) the code must still equal the model.", "DESIGN.md §4 C06, §5 F6", []),
-    "C07": C("Lean 4 proof (decision logic on the wrapper's event trace) + " + CORR,
+    "C07": C("Lean 4 proof (decision logic on the wrapper's event trace); " + CORE + CORR,
              "args_rejected_no_body / return_rejected_body_once / return_hint_not_in_args_phase over the wrapper model; differential runs with a body that logs its side effects and a logged assert_context, one violation placed per argument position / tuple element / return.",
              "", "DESIGN.md §4 C07", []),
     "C08": C("Lean 4 proof (error-class table by decide over the regenerated _errors.py; report lemmas of check()) + " + CORR + " judging every report's fields",
